@@ -515,10 +515,10 @@ fn tok_line<A: az65::lexer::ArchTokens>(
             format!("S{}", hex(interner.borrow().get(*value).unwrap().as_bytes()))
         }
         Token::Number { value, .. } => format!("#{}", value),
-        Token::Operation { name, .. } => format!("O{}", name),
-        Token::Directive { name, .. } => format!("D{}", name),
-        Token::Register { name, .. } => format!("R{}", name),
-        Token::Flag { name, .. } => format!("F{}", name),
+        Token::Operation { name, .. } => format!("O{:?}", name),
+        Token::Directive { name, .. } => format!("D{:?}", name),
+        Token::Register { name, .. } => format!("R{:?}", name),
+        Token::Flag { name, .. } => format!("F{:?}", name),
         Token::Symbol { name, .. } => format!("Y{}", format!("{}", name).trim()),
         Token::Label { kind, value, .. } => format!(
             "L{}{}",
